@@ -83,8 +83,17 @@ def q1(prog, rep):
     rep.floor("Q1a", len(accepts), 1, "Some(metadata) accept blocks in verify_metadata")
     chain = [c for c in prog.calls_in(owner) if c.is_(V + "ensure_chain_ids_match")]
     hashc = [c for c in prog.calls_in(owner) if c.is_(V + "ensure_block_hashes_match")]
-    rep.floor("Q1a", len(chain), 1, "ensure_chain_ids_match call in verify_metadata")
-    rep.floor("Q1a", len(hashc), 1, "ensure_block_hashes_match call in verify_metadata")
+    # both comparisons are made for *every* metadata item, in verify_metadata itself: a check
+    # that only runs where the per-height verification cache is filled (VerificationMeta::fetch)
+    # is skipped on every cache hit
+    for lst, nm in ((chain, "chain id"), (hashc, "block hash")):
+        rep.check(bool(lst), "Q1a", f"per-item:{nm.replace(' ', '-')}-compared",
+                  f"verify_metadata does not compare the metadata's {nm} with the commit's for "
+                  "every item (a comparison made only when the verification cache is filled is "
+                  "skipped on every cache hit: later metadata for the same height is accepted "
+                  "unchecked)", body.describe())
+    if not chain or not hashc:
+        return
     # operand provenance: commit-side value comes from the cached signed header, the other from
     # the metadata under verification
     for c, ra, rb, nm in (
